@@ -53,12 +53,12 @@ TINY = {
 }
 DFS_PLANS = {
     "C04": ["chain2-direct", "chain2-pre"],
-    "C05": ["dup", "resubmit"],
+    "C05": ["dup", "resubmit", "kill-restart-dup"],
     "C06": ["one", "one-fail", "chain2-direct", "tok1-2", "resubmit"],
     "C07": ["one-fail", "late-dependent"],
     "C08": ["one-tok", "tok1-2", "tok-big"],
     "C09": ["one-tok", "tok1-2", "tok-big"],
-    "C11": ["rerun-done"],
+    "C11": ["rerun-done", "kill-restart-dup"],
     "C10": ["one", "one-fail"],
 }
 
